@@ -40,3 +40,20 @@ reg("serde-buffered", F("tlsh-default", "serde-suite", "f-serde-buffered"), flag
 
 # feature `unsafe`, release profile (no debug assertions / overflow checks): a false invariant!() is UB here
 reg("unsafe-release", F("tlsh-default", "f-unsafe"), profile="release", flags=[2, 3, 15, 16, 18, 19, 21, 34])
+
+# ---- C07: the configuration matrix (every cfg_if branch compiled in at least one build) ----
+BASE = ("f-std", "f-easy-functions")
+reg("nosimd", F(*BASE, "f-opt-default"), flags=[18, 19, 21, 31])
+reg("embedded", F(*BASE, "f-opt-embedded-default"), flags=[13, 19, 20, 31])
+reg("lowmem", F(*BASE, "f-opt-low-memory-hex-str-decode-half-table", "f-opt-low-memory-hex-str-encode-min-table",
+                "f-opt-low-memory-buckets"), flags=[10, 14, 17, 31])
+reg("decq", F(*BASE, "f-opt-low-memory-hex-str-decode-quarter-table", "f-opt-dist-qratios-table-double"), flags=[11, 21, 31])
+reg("decmin", F(*BASE, "f-opt-low-memory-hex-str-decode-min-table", "f-opt-pearson-table-double"), flags=[12, 18, 31])
+reg("static-sse2", F(*BASE, "f-opt-default", "f-simd"), flags=[15, 16, 18, 19, 21, 32])
+reg("static-ssse3", F(*BASE, "f-opt-default", "f-simd"), rustflags="-C target-feature=+ssse3", flags=[15, 16, 18, 19, 21, 32])
+reg("static-sse41", F(*BASE, "f-opt-default", "f-simd"), rustflags="-C target-feature=+sse4.1", flags=[15, 16, 18, 19, 21, 33])
+reg("static-avx2", F(*BASE, "f-opt-default", "f-simd"), rustflags="-C target-feature=+avx2", flags=[15, 16, 18, 19, 21, 34])
+reg("unsafe-debug", F("tlsh-default", "f-unsafe"), flags=[2, 15, 16, 18, 19, 21, 34])
+CFG_QUICK = ["default", "nosimd", "lowmem", "static-sse2"]
+CFG_ALL = ["default", "nosimd", "embedded", "lowmem", "decq", "decmin", "static-sse2", "static-ssse3", "static-sse41",
+           "static-avx2", "unsafe-debug", "unsafe-release", "release"]
